@@ -8,12 +8,12 @@ namespace Fc
 open Spec
 
 /-- matching a field list against itself pairs every field with itself -/
-theorem findMatches_self {κ} [BEq κ] [LawfulBEq κ] (l : List (κ × NdArr)) :
-    findMatches l l = l.map fun x => (x.2, x.2) := by
+theorem findFieldMatches_self {κ} [BEq κ] [LawfulBEq κ] (l : List (κ × NdArr)) :
+    findFieldMatches l l = l.map fun x => (x.2, x.2) := by
   induction l with
   | nil => rfl
   | cons s ss ih =>
-    simp only [findMatches, List.findIdx?_cons, beq_self_eq_true, if_true, List.getD_cons_zero,
+    simp only [findFieldMatches, List.findIdx?_cons, beq_self_eq_true, if_true, List.getD_cons_zero,
       List.eraseIdx_cons_zero, List.map_cons, ih]
 
 theorem reshapePair_self (s : List Nat) : reshapePair s s = (s, s) := by
